@@ -1,6 +1,7 @@
 package main
 
 import (
+	"math"
 	"encoding/json"
 	"fmt"
 	"strings"
@@ -218,6 +219,39 @@ func (in *convInput) options() []convert.Option {
 
 // geodOracle: WGS-84 distances between successive fix positions of each converted lap
 // (first row, then every GPS-updated row), computed by the harness's own calls.
+// geodSanity: every oracle distance must agree with the great-circle distance on the mean sphere
+// to 1 % + 1 m (the ellipsoid differs from it by at most 0.6 %): a WGS-84 "distance" outside that
+// is not the geodesic distance the property speaks about.  k45: some converted fix has a latitude
+// of exactly 45 + 180k degrees, the class of known finding D24 (pinned geodesic dependency).
+func (in *convInput) geodSanity() (sane bool, k45 bool) {
+	sane = true
+	if len(in.Laps) < 3 {
+		return
+	}
+	for _, jl := range in.Laps[1 : len(in.Laps)-1] {
+		if len(jl.Recs) == 0 {
+			continue
+		}
+		last := jl.Recs[0]
+		for _, r := range jl.Recs[1:] {
+			if !r.Upd {
+				continue
+			}
+			var d float64
+			geodesic.WGS84.Inverse(last.Lat, last.Lon, r.Lat, r.Lon, &d, nil, nil)
+			sph := vangle(toVec(last.Lat, last.Lon), toVec(r.Lat, r.Lon)) * 6371008.8
+			if !(math.Abs(d-sph) <= 0.01*sph+1) {
+				sane = false
+			}
+			if sincos45(last.Lat, r.Lat) {
+				k45 = true
+			}
+			last = r
+		}
+	}
+	return
+}
+
 func (in *convInput) geodOracle() string {
 	if len(in.Laps) < 3 {
 		return "[]"
@@ -376,7 +410,9 @@ func addConvCase(ctx *Ctx, in *convInput, tags ...string) {
 			nfix += len(l.Recording.Fixes)
 		}
 	}
-	coq := fmt.Sprintf("(mkCase %s %s %s %s %s %s %s)", in.coqOpts(), CoqStr(in.Vehicle), in.coqLaps(), in.geodOracle(), table, CoqNat(class), dump)
+	sane, k45 := in.geodSanity()
+	tags = append(tags, fmt.Sprintf("sincos45:%v", k45))
+	coq := fmt.Sprintf("(mkCase %s %s %s %s %s %s %s %s %s)", in.coqOpts(), CoqStr(in.Vehicle), in.coqLaps(), in.geodOracle(), table, CoqBool(sane), CoqBool(k45), CoqNat(class), dump)
 	b, _ := json.Marshal(in)
 	ctx.Add(Case{Coq: coq, Input: in, Obs: map[string]any{"class": class, "detail": detail, "laps": nlaps, "fixes": nfix}, Key: string(b),
 		Trivial: len(in.Laps) < 3, Tags: append([]string{"kind:" + in.Kind, fmt.Sprintf("class:%d", class), fmt.Sprintf("laps:%d", len(in.Laps))}, tags...)})
@@ -488,6 +524,11 @@ func runC03(ctx *Ctx) error {
 		in.Laps = genSession(r, nl, 9, 1653983971000+int64(r.Intn(1e9)), r.Intn(3), randPattern(r), 0)
 		if r.Chance(0.2) {
 			in.StartDate = fmt.Sprintf("20%02d-%02d-%02d", r.Intn(60), 1+r.Intn(12), 1+r.Intn(28))
+		}
+		if r.Chance(0.03) && len(in.Laps) >= 3 && len(in.Laps[1].Recs) >= 2 {
+			k := 1 + r.Intn(len(in.Laps[1].Recs)-1)
+			in.Laps[1].Recs[k].Lat = Pick(r, []float64{45, -45})
+			in.Laps[1].Recs[k].Upd = true
 		}
 		tag := "history:fresh-converter"
 		if r.Chance(0.25) {
